@@ -173,8 +173,40 @@ func genOp(t *rapid.T, m opMix, nKeys int, cfg Config, bigValues bool) Op {
 	return op
 }
 
+// genOps draws a history as a list of small groups (an operation with
+// optional flushes around it, GC actions optionally repeated) and flattens
+// it, so that flushes sit next to writes and GC cycles often enough while
+// the list still shrinks element-wise.
 func genOps(t *rapid.T, m opMix, nKeys int, cfg Config, minOps, maxOps int, bigValues bool) []Op {
-	return rapid.SliceOfN(rapid.Custom(func(t *rapid.T) Op {
-		return genOp(t, m, nKeys, cfg, bigValues)
+	flushy := rapid.IntRange(0, 3).Draw(t, "flushy") // per-case inclination to flush
+	groups := rapid.SliceOfN(rapid.Custom(func(t *rapid.T) []Op {
+		op := genOp(t, m, nKeys, cfg, bigValues)
+		g := []Op{op}
+		switch op.K {
+		case opPut, opRePut, opRemove:
+			if flushy > 0 && weighted(t, "flushAfter", []int{6 - flushy, flushy}) == 1 {
+				g = append(g, Op{K: opFlush})
+			}
+		case opPGC, opIGC:
+			if weighted(t, "flushBefore", []int{2, 3}) == 1 {
+				g = append([]Op{{K: opFlush}}, g...)
+			}
+			if weighted(t, "flushAfterGC", []int{3, 2}) == 1 {
+				g = append(g, Op{K: opFlush})
+			}
+			if weighted(t, "again", []int{3, 2}) == 1 {
+				again := op
+				if weighted(t, "otherGC", []int{2, 1}) == 1 {
+					again = genOp(t, opMix{kinds: []string{opPGC, opIGC}, weights: []int{1, 1}}, nKeys, cfg, false)
+				}
+				g = append(g, again)
+			}
+		}
+		return g
 	}), minOps, maxOps).Draw(t, "ops")
+	var ops []Op
+	for _, g := range groups {
+		ops = append(ops, g...)
+	}
+	return ops
 }
